@@ -21,7 +21,9 @@ RULE = (
     "copy.deepcopy(m). Oracles: (1) round trip - every public table, group, trainable, recording and input of each copy equals the "
     "original; (2) integrate, and jax.grad through integrate when trainables exist, give bit-identical results on original and "
     "copies; (3) independence - applying the further operation to a copy leaves the original's snapshot unchanged and vice versa; "
-    "(4) a copied SWC cell can still change its number of compartments and gets the same radii as the original. Non-trivial: "
+    "(4) a copied SWC cell can still change its number of compartments and gets the same radii as the original; (5) views (cell, branch, "
+    "compartment, group, synapse-type views - they are modules too) copy with identical tables, scope and kind, and make_trainable through "
+    "the copied view shares parameters exactly as through the original view. Non-trivial: "
     "history length >=3 containing at least one of {SWC cell, synapse, trainable, group, clamp}; distinct = hash(module, op log)."
 )
 ASSUMPTIONS = [
@@ -108,6 +110,74 @@ def simulate(m, backend, with_grad):
             return jnp.sum(jx.integrate(m, params=p, **kw) ** 2) * 1e-4
         g = [np.asarray(next(iter(d.values())), float) for d in jax.grad(loss)(params)]
     return out, g
+
+
+def _judge_view_copies(spec, out):
+    from vp import snap
+
+    m = build(spec)
+    for op in spec["ops"]:
+        if spec["kind"] in ("compartment", "branch") and op["op"] == "set_ncomp":
+            continue
+        rec = ops.resolve(m, op)
+        if rec is None:
+            continue
+        _, err = core.call(ops.apply, m, rec)
+        if err:
+            return False  # refused histories are not this clause's business
+    if ops.invariants(m) or len(m.nodes) < 2 or m.trainable_params:
+        return False
+    views = {}
+    nb = int(m.nodes["global_branch_index"].max()) + 1
+    if spec["kind"] == "network":
+        views["cell"] = lambda mm: mm.cell([0, 1]) if int(mm.nodes["global_cell_index"].max()) >= 1 else mm.cell(0)
+    if spec["kind"] in ("cell", "network", "swc") and nb >= 2:
+        views["branch"] = lambda mm: mm.branch([0, 1])
+    views["comp"] = lambda mm: mm.scope("global").comp([0, 1])
+    for g in list(m.groups)[:1]:
+        views["group"] = lambda mm, g=g: getattr(mm, g)
+    if len(m.edges):
+        t = m.edges["type"].iloc[0]
+        views["syn"] = lambda mm, t=t: getattr(mm, t).edge("all")
+    for name, mk in views.items():
+        v, err = core.call(mk, m)
+        if err:
+            continue
+        for how in ("pickle", "deepcopy"):
+            try:
+                c = pickle.loads(pickle.dumps(v)) if how == "pickle" else copy.deepcopy(v)
+            except Exception as e:  # noqa: BLE001
+                out.violate(f"view-copy:{how}", f"{how} of the {name} view raised {type(e).__name__}: {str(e)[:160]}")
+                return True
+            out.evals += 1
+            out.classes.append("view copy:" + name)
+            for tname in ("nodes", "edges"):
+                a, b = getattr(v, tname), getattr(c, tname)
+                cells, notes = snap.df_diff(a, b, ignore_cols=())
+                if cells or notes:
+                    out.violate(f"view-copy:{how}", f"{how} copy of the {name} view differs in .{tname}: {sorted(cells)[:5]} {notes[:2]}")
+                    return True
+            if getattr(v, "_scope", None) != getattr(c, "_scope", None) or getattr(v, "_current_view", None) != getattr(c, "_current_view", None):
+                out.violate(f"view-copy:{how}", f"{how} copy of the {name} view has scope/kind {c._scope}/{c._current_view}, original {v._scope}/{v._current_view}")
+                return True
+            # parameter sharing through the copied view
+            key = "radius" if name != "syn" else None
+            if key:
+                m1 = copy.deepcopy(m)
+                v1 = mk(m1)
+                c1 = pickle.loads(pickle.dumps(v1)) if how == "pickle" else copy.deepcopy(v1)
+                _, e1 = core.call(lambda: v1.make_trainable(key, verbose=False))
+                _, e2 = core.call(lambda: c1.make_trainable(key, verbose=False))
+                if (e1 is None) != (e2 is None):
+                    out.violate(f"view-copy:{how}", f"make_trainable({key}) through the {how} copy of the {name} view: original {'ok' if e1 is None else e1.short()}, copy {'ok' if e2 is None else e2.short()}")
+                    return True
+                if e1 is None:
+                    i1 = [np.asarray(x).tolist() for x in m1.indices_set_by_trainables]
+                    i2 = [np.asarray(x).tolist() for x in c1.base.indices_set_by_trainables]
+                    if i1 != i2:
+                        out.violate(f"view-copy:{how}", f"make_trainable({key}) through the {how} copy of the {name} view shares parameters as {i2}, through the original view as {i1}")
+                        return True
+    return False
 
 
 def judge(spec, tier="quick"):
@@ -229,6 +299,10 @@ def judge(spec, tier="quick"):
             if d:
                 out.violate(f"independence:{name}", f"applying {rec} to the original changed its {name} copy's {sorted(d)}; {label}")
                 return out
+    # (5) views are modules too: a pickled / deep-copied view shows the same tables and shares parameters the same way
+    bad = _judge_view_copies(spec, out)
+    if bad:
+        return out
     # (4) an SWC copy can still be re-discretised
     if spec["kind"] == "swc" and not kinds & {"record", "stimulate", "clamp", "make_trainable", "record_edge", "insert", "set"}:
         m2 = build(spec)
